@@ -250,7 +250,10 @@ def dc_cases(draw, tier):
     cells = sorted({(draw(st.integers(0, m - 1)), draw(st.integers(0, W - 1))) for _ in range(ncells)})
     return {'db': which, 'n': n, 'cols': cols, 'cells': [list(c) for c in cells],
             # the size measure of the lookup: default, or an explicit exclusion list (list / tuple / frozenset of gate types)
-            'excl': draw(st.sampled_from([None, None, ['INPUT'], ('INPUT', 'AND'), ['NOT'], ['INPUT', 'NOT', 'IFF']]))}
+            'excl': draw(st.sampled_from([None, None, ['INPUT'], ('INPUT', 'AND'), ['NOT'], ['INPUT', 'NOT', 'IFF']])),
+            # lookups made on the same database object just before: the same cells cut into rows of another length, with an
+            # all-False row in front, or the same pattern under another measure
+            'prior': draw(st.sampled_from([None, None, 'reshape', 'reshape', 'zero_row', 'other_measure']))}
 
 
 def check_dc(case):
@@ -266,6 +269,24 @@ def check_dc(case):
         model[i][j] = DontCare
     core = cirbo_core()
     excl = case.get('excl')
+    prior = case.get('prior')
+    if prior:
+        flat = [v for r in model for v in r]
+        alts = []
+        if prior == 'reshape':
+            for w in ((1 << n) // 2, (1 << n) * 2):
+                if w >= 2 and len(flat) % w == 0:
+                    alts.append([flat[k:k + w] for k in range(0, len(flat), w)])
+        elif prior == 'zero_row':
+            alts.append([[False] * (1 << n)] + [list(r) for r in model])
+            alts.append([list(r) for r in model] + [[False] * (1 << n)])
+        for alt in alts:
+            try:
+                d.get_by_raw_truth_table_model(alt)
+            except core.CirboError:
+                pass
+        if prior == 'other_measure':
+            d.get_by_raw_truth_table_model([list(r) for r in model], exclusion_list=[core.gate.INPUT, core.gate.NOT] if excl is None else None)
     if excl is None:
         res = d.get_by_raw_truth_table_model([list(r) for r in model])
 
@@ -313,7 +334,8 @@ def check_dc(case):
     pr = wellformed.basic_problems(res)
     if pr:
         raise Violation('dc_wellformed', '; '.join(pr[:2]))
-    return {'nt': True, 'cls': {f'dc_cells={len(cells)}', case['db'], 'measure:' + ('default' if excl is None else 'explicit')},
+    return {'nt': True, 'cls': {f'dc_cells={len(cells)}', case['db'], 'measure:' + ('default' if excl is None else 'explicit')}
+            | ({'prior:' + prior} if prior else set()),
             'key': [case['db'], n, cols, case['cells'], list(excl) if excl else None]}
 
 
